@@ -1,5 +1,6 @@
 import SkyllhModel.Proto
 import SkyllhModel.Model.Stat
+import SkyllhModel.Model.PolyFitR7
 open Proto Stat
 
 /-  requests (floats as IEEE bit patterns, names comma separated, `-` = empty list):
@@ -20,6 +21,8 @@ open Proto Stat
       pg   <tsv> <n_max> <thr> <eta> <sf(eta)> <sf(thr)> -> ok p | err V | err Z   (gamma-fit branch)
       mix  <op> <tsv> <thr> <switch> <eta|none>   -> T <pv answer> | G <eta>
       poly <deg> <params(deg)> <params(1)> <pthr> -> ok <ns> <degree used> | err V | err I
+      pfq  <deg> <xs> <ys> <ws>                   -> np.polyfit as exact weighted least squares (rationals num/den): ok <coeffs> | err <tag>
+      pfd  <deg> <xs> <ys> <ws> <pthr>            -> polynomial_fit from the data (exact fit, inversion in doubles): <ok <ns> <deg used> | err P:<tag> | err V|I|N> ; <pfq deg> ; <pfq 1>
       bind <params> <required> <kwargs> <nPos> <kws> -> ok | err ...
       fwd  <outer params> <fixed> <kws>           -> keywords reaching the inner callee
     op: 0 = 'greater', 1 = 'greater_equal', 2 = anything else
@@ -33,6 +36,27 @@ def fPv (r : Except PvErr (Float × Float)) (cnt : Except PvErr (Nat × Nat)) : 
   | .error .valueError, _ => "err V"
   | .error .zeroDivision, _ => "err Z"
   | _, _ => "err ?"
+
+/-- nearest-ish double of a rational (relative error < 2^-52): 70 significant bits, then one rounding -/
+def ratToFloat (q : Rat) : Float :=
+  if q.num == 0 then 0.0 else
+  let n := q.num.natAbs
+  let d := q.den
+  let k : Int := (n.log2 : Int) - (d.log2 : Int)
+  let sh : Int := 70 - k
+  let m : Nat := if sh ≥ 0 then (n <<< sh.toNat) / d else n / (d <<< (-sh).toNat)
+  let f := (Float.ofNat m).scaleB (-sh)
+  if q.num < 0 then -f else f
+
+def fPfErr (e : PfErr) : String :=
+  match e with
+  | .degNegative => "D"
+  | .xEmpty => "E"
+  | .xyLen => "XY"
+  | .wyLen => "WY"
+  | .singular => "S"
+  | .tooFewForCov => "C"
+  | .degreeNotModelled => "M"
 
 def pNames (s : String) : List String := pList id s
 
@@ -189,6 +213,25 @@ def answer (line : String) : String :=
       | .error .valueError => "err V"
       | .error .indexError => "err I"
       | .error .notFinite => "err N"
+  | ["pfq", deg, xs, ys, ws] =>
+      match polyfitR7 (pI deg) (pList pQ xs) (pList pQ ys) (pList pQ ws) with
+      | .ok c => "ok " ++ fListD fQ c
+      | .error e => "err " ++ fPfErr e
+  | ["pfd", deg, xs, ys, ws, pthr] =>
+      let X := pList pQ xs
+      let Y := pList pQ ys
+      let W := pList pQ ws
+      let fq : Except PfErr (List Rat) → String := fun r =>
+        match r with
+        | .ok c => "ok " ++ fListD fQ c
+        | .error e => "err " ++ fPfErr e
+      let res := match polynomialFitData ratToFloat (pI deg) X Y W (pF pthr) with
+        | .ok (x, du) => s!"ok {fF x} {du}"
+        | .error (.polyfit e) => "err P:" ++ fPfErr e
+        | .error (.poly .valueError) => "err V"
+        | .error (.poly .indexError) => "err I"
+        | .error (.poly .notFinite) => "err N"
+      s!"{res} ; {fq (polyfitR7 (pI deg) X Y W)} ; {fq (polyfitR7 1 X Y W)}"
   | ["bind", ps, req, kw, npos, kws] =>
       match pyBind { params := pNames ps, required := pNames req, kwargs := pB kw } (pN npos) (pNames kws) with
       | .ok _ => "ok"
